@@ -27,7 +27,11 @@ def cell_class():
             return self.value
 
         def set(self, device, value):
+            if self.pascal:
+                # the variable's format is "23p": at most 22 bytes are kept
+                value = value[:22]
             self.value = value
+    Cell.pascal = False
     return Cell
 
 
@@ -41,6 +45,7 @@ class Channel:
             setattr(self, n, Cell(False))
         self.in_string = Cell(b"")
         self.out_string = Cell(b"")
+        self.in_string.pascal = self.out_string.pascal = True
 
 
 class Pipes:
